@@ -51,6 +51,30 @@
                         (KIDS(n).g_fidx < KIDS(n).len && KIDS(CH(n, KIDS(n).g_fidx)).g_ex)))))
 #define DEF_DEPTH(n) (KIDS(n).g_depth == 1 + FOLD_MAX(n))
 
+/* ---- shrink (C13): liveness, one level unfolded ---- */
+#define HSUBS(n) (HAS_SUBJ(n) && KIDS(n).g_hsubs)
+#define DEF_LIVE(n) (BEQ(KIDS(n).g_live, HSUBS(n) || KIDS(n).g_clive))
+/* facts every child c satisfies, over the fields of the child node only (instances of the hereditary invariant) */
+#define KID_FACTS(m, c) (BEQ(KIDS(c).g_live, HSUBS(c) || KIDS(c).g_clive) &&              /* LIVE unfolded at the child */ \
+                         (!KIDS(c).g_clive || KIDS(c).len > 0) &&                          /* a live grandchild is a grandchild */ \
+                         (!(KIDS(c).g_win && g_wlive) || KIDS(c).g_live) &&                /* W live and below c: c is live */ \
+                         (!(m)->g_full || KIDS(c).g_full) &&                               /* FULL is hereditary */ \
+                         (!KIDS(c).g_live || (m)->g_clive))                                /* a live child makes g_clive true */
+/* what the recursive step leaves behind at a child it was applied to (the twin's ensures, restated) */
+#define KID_POSTREC(c) (!(KIDS(c).g_full && KIDS(c).len > 0) || KIDS(c).g_clive)
+/* the same at a tracked index x of node n (requires / loop invariants), together with the map invariant key = name */
+#define KIDX(n, x) ((x) < KIDS(n).len ==> (KID_FACTS(&KIDS(n), CH(n, x)) && KEYOF(n, x) == CH(n, x)->m_name.id))
+#define KIDL(n, x, pos) ((x) < KIDS(n).len ==> (KID_FACTS(&KIDS(n), CH(n, x)) && ((x) < (pos) ==> KID_POSTREC(CH(n, x)))))
+/* the path from n towards W, one step */
+#define W_PATH(n) ((KIDS(n).g_isw ==> KIDS(n).g_win) && KIDS(n).g_wchild <= KIDS(n).len && \
+                   ((KIDS(n).g_win && !KIDS(n).g_isw) ==> (KIDS(n).g_wchild < KIDS(n).len && KIDS(CHW(n)).g_win)))
+/* self: W and liveness witnesses */
+#define LIVE_FACTS(n) (DEF_LIVE(n) && (!(KIDS(n).g_win && g_wlive) || KIDS(n).g_live) && (!(KIDS(n).g_isw && g_wlive) || HSUBS(n)) && \
+                       KIDS(n).g_lchild <= KIDS(n).len && (KIDS(n).g_clive ==> (KIDS(n).g_lchild < KIDS(n).len && KIDS(CH(n, KIDS(n).g_lchild)).g_live)) && \
+                       (!HAS_SUBJ(n) || BEQ((n)->m_subject.p->c.has_subs, KIDS(n).g_hsubs)))
+#define FULL_FACTS(n, lv) (KIDS(n).g_full ==> (MATCH(n, lv) && (KIDS(n).len == 0 || (!LEAF(lv) && NLVL(lv).is_rx))))
+#define ERASE_IF_SHRINK X_erase_if__map_std_basic_string_char_tulz_SubjectRouter_Node_std_less_std_basic_string_char_std_allocator_std_pair_const_std_basic_string_char_tulz_SubjectRouter_Node_ref_closure_Node__shrink_1
+
 /* ---- models (specs/rt_models.h) ---- */
 static void Str__ctor_copy(struct Str *s, struct Str *o) { s->id = o->id; s->g_rxm = nondet_bool(); }
 static void Str__ctor_move(struct Str *s, struct Str *o) { s->id = o->id; s->g_rxm = nondet_bool(); }
@@ -85,4 +109,5 @@ static struct Subj0 *SPtr__op_arrow(struct SPtr *p);
 static _Bool X_op_eq__unique_ptr_tulz_Subject_std_default_delete_tulz_Subject_ref_void_ptr(struct SPtr *p, void *z);
 struct closure_Node__exists_1; struct closure_Node__shrink_1;
 static _Bool X_any_of__CIt_CIt_closure_Node__exists_1(struct CIt b, struct CIt e, struct closure_Node__exists_1 pred);
+static size_t ERASE_IF_SHRINK(struct CMap *m, struct closure_Node__shrink_1 pred);
 #endif
